@@ -14,13 +14,22 @@ pub open spec fn union_style(ctx: &BindgenContext, name: &str) -> NonCopyUnionSt
 UNIT = {
     "name": "union_repr",
     "env": [os.path.join(ENV, "union_repr_env.rs")],
-    "declared_trusted": {r"external_body": 12},
+    "declared_trusted": {r"external_body": 18},
     "items": [
         {"kind": "enum", "file": CG, "name": "NonCopyUnionStyle", "prefix": "#[derive(Copy, Clone, PartialEq, Eq, Structural)]"},
         {"kind": "raw", "label": "union_spec", "text": SPEC},
+        # the per-member test (the closure handed to `.iter().all(..)`, brace-less closure R18): a data member counts as Copy exactly
+        # when its DECLARED type can derive Copy - a blocklisted typedef of a Copy type cannot (C10: "traits are not derived
+        # through a blocklisted type unless the user vouches for it"); bit-field units always can
+        {"kind": "fn", "file": "bindgen/ir/comp.rs", "name": "union_field_can_copy", "impl": r"^impl CompInfo$", "ret": "r",
+         "closure": {"enclosing": "is_rust_union", "anchor_re": r"\.all\(\|f\|", "nth": 0, "expr": True,
+                     "signature": "fn union_field_can_copy(f: &Field, ctx: &BindgenContext) -> (r: bool)", "prefix": "{", "suffix": "}"},
+         "subst": [("match *f {", "match f {", 0, "R24 match on the reference (default binding modes)"),
+                   ("Field::DataMember(ref field_data)", "Field::DataMember(field_data)", 0, "R24")],
+         "ensures": ["r == (match f { Field::DataMember(d) => s_can_copy(ctx, d.ty.0), Field::Bitfields(_) => true })"]},
         {"kind": "fn", "file": "bindgen/ir/comp.rs", "name": "is_rust_union", "impl": r"^impl CompInfo$", "impl_header": "impl CompInfo", "impl_name": "CompInfo", "ret": "r",
          "subst": [
-             ("self.fields().iter().all(|f| match *f { Field::DataMember(ref field_data) => { field_data.ty().can_derive_copy(ctx) } Field::Bitfields(_) => true, })", "self.all_fields_can_copy(ctx)", 1, "R5"),
+             (r"re:(?s)self\.fields\(\)\.iter\(\)\.all\(\|f\|\s*match.*?\}\)(?=\s*;)", "self.all_fields_can_copy(ctx)", 1, "R5 `fields.iter().all(test)` is one accessor: the test holds for every member (the test itself is union_field_can_copy above)"),
              ("layout.is_some_and(|l| l.size == 0)", "(match layout { Some(l) => l.size == 0, None => false })", 1, "R7"),
          ],
          "ensures": [
